@@ -114,3 +114,38 @@ func Verif_T00_SprintfModel() {
 	}
 	verifrt.Assert(got == want, "symbolic Sprintf model equals strconv")
 }
+
+type t00S3 struct{ a, b, c uint64 }
+type t00SP struct {
+	p *int
+	a [70]uint64
+}
+
+// The engine's append must leave the capacity the Go runtime leaves (aliasing
+// after append depends on it). The constants come from a native go1.23 run.
+func Verif_T00_AppendCapacity() {
+	var a []int
+	var b []byte
+	var c []t00S3
+	var d []string
+	var e []t00SP
+	var f []uint16
+	h := uint64(0)
+	for i := 0; i < 600; i++ {
+		a = append(a, i)
+		b = append(b, 1)
+		c = append(c, t00S3{})
+		d = append(d, "")
+		f = append(f, 1)
+		if i < 40 {
+			e = append(e, t00SP{})
+		}
+		for _, x := range []int{cap(a), cap(b), cap(c), cap(d), cap(e), cap(f)} {
+			h = h*1000003 + uint64(x)
+		}
+	}
+	g := append([]byte{1, 2, 3}, make([]byte, 30)...)
+	verifrt.Reach("appended")
+	verifrt.Assert(cap(g) == 48, "capacity after appending 30 bytes to 3")
+	verifrt.Assert(h == 8228973279732082310, "capacities after 600 appends match the Go runtime")
+}
